@@ -1159,6 +1159,18 @@ class Exec:
             return out
         if k == 'source':   # caller-supplied iterator I: next() may yield a fresh owned item, end, or panic
             return s.source_next(st, cell, path, where)
+        if k == 'crateit':   # an iterator struct defined in the crate: run its own `next` body
+            fn = s.pick(s.index[('Iterator', r['ty'], 'next')])
+            tgt = r['it'] if isinstance(r['it'], Ref) else Ref(cell, path + ('it',))
+            out = []
+            for (s1, kk, v) in s.run_fn(st, fn, [tgt]):
+                if kk != 'ret':
+                    out.append((s1, 'unwind', None))
+                elif v.variant == 'Some':
+                    out.append((s1, 'some', v.fields[0]))
+                else:
+                    out.append((s1, 'none', None))
+            return out
         if k == 'gaiter':   # the crate's own by-value iterator used as a source (e.g. trait-default zip over an owned array)
             fn = s.pick(s.index[('Iterator', 'GenericArrayIter', 'next')])
             out = []
@@ -1214,6 +1226,16 @@ class Exec:
     def size_hint(s, st, r):
         if isinstance(r, Ref):
             return s.size_hint(st, st.get(r.cell, r.path))
+        if isinstance(r, dict) and r.get('kind') == 'crateit':
+            lst = s.index.get(('Iterator', r['ty'], 'size_hint'))
+            if lst is None:      # Iterator's provided method
+                return {0: bv(0), 1: Enum('None', {})}
+            if not isinstance(r['it'], Ref):
+                r = dict(r); r['it'] = Ref(st.new_cell(r['it']), ())
+            outs = [(s1, kk, v) for (s1, kk, v) in s.run_fn(st.clone(), s.pick(lst), [r['it']])]
+            if len(outs) != 1 or outs[0][1] != 'ret':
+                raise NotImplementedError('size_hint of the crate iterator %s has more than one outcome' % r['ty'])
+            return outs[0][2]
         if r['kind'] == 'range':
             n = z3.If(ULE(r['pos'], r['end']), r['end'] - r['pos'], bv(0))
             return {0: n, 1: Enum('Some', {0: n})}
@@ -2359,6 +2381,13 @@ class Exec:
                 raise NotImplementedError('as_slice of a non-slice iterator')
             return R(Slice(it['arr'], it['pos'], it['end']))
         args = [s.as_iter(a) for a in args] if re.search(r' as (Iterator|IntoIterator|DoubleEndedIterator)>::', c) else args
+        # an iterator struct *defined in the crate* flowing into one of core's adaptors / consumers: its own `next` (and `size_hint`) bodies are run
+        mci = re.match(r"^<(?:&mut |&)?(?:\w+::)*(\w+)<.*> as (?:Iterator|IntoIterator)>::(map|zip|enumerate|take|cloned|copied|into_iter|for_each|fold|count|try_for_each|size_hint)\b", c)
+        if mci and ('Iterator', mci.group(1), 'next') in s.index and args:
+            a0 = args[0]
+            tgt = st.get(a0.cell, a0.path) if isinstance(a0, Ref) else a0
+            if not (isinstance(tgt, dict) and 'kind' in tgt):
+                args = [{'kind': 'crateit', 'ty': mci.group(1), 'it': a0}] + list(args[1:])
         if re.search(r' as Iterator>::try_for_each::<', c):
             return s.try_for_each(st, args[0], args[1], where)
         if re.search(r' as Iterator>::(cloned|copied)(::<.*>)?$', c):
